@@ -67,8 +67,7 @@ Full statement / proved / missing
                          is reached by every letter (assuming only that fmt pads its own output: `IOWidth`).
 * missing: the digits of `%e %f %g %a` (fmt/strconv float formatting is a parameter `FloatIO`; only the dispatch,
   the format string handed over, floatGFormat's fraction restoration and padNumber are modelled and compared);
-  strings.ToUpper/ToLower
-  beyond U+00FF; NaN/±Inf (not instances of Float in pcore: no Float format entry applies to them).
+  NaN/±Inf (not instances of Float in pcore: no Float format entry applies to them).
 -/
 namespace Pcore.Format
 open Pcore.Generated
@@ -85,6 +84,13 @@ def io0 : FloatIO := ⟨fun _ _ => [], fun _ => 0, fun _ => 0⟩
 /-! ## the regenerated table -/
 
 theorem C20_letters : LettersOK formatLetters := lettersOKb_sound formatLetters (by decide +kernel)
+
+/-- Go's case table, regenerated from $GOROOT/src/unicode/tables.go: every row recognised, ranges sorted and disjoint
+    (so the model's search finds what unicode.ToUpper/ToLower's binary search finds) -/
+theorem C20_case_table : CaseTableOK caseRanges := by decide +kernel
+
+example : "ǆemal ΣΑΣ".toList.map goUpper = "Ǆemal ΣΑΣ".toList.map goUpper ∧ "Ǆ".toList.map goLower = "ǆ".toList ∧
+    capitalizeSegment "ǆ ΣΑΣ".toList = "Ǆ σασ".toList ∧ "ß".toList.map goUpper = "ß".toList := by decide +kernel
 
 /-! ## the grammar -/
 
